@@ -422,7 +422,7 @@ static void thompsonCase(const char * comp, Rng & rng, long nrec, int rewardMode
 // ---------------------------------------------------------------------------------------------
 static const long kFixed = 12;
 
-long verif::verif_ncases(const std::string & tier) { return kFixed + (tier == "thorough" ? 2000 : 330); }
+long verif::verif_ncases(const std::string & tier) { return kFixed + (tier == "thorough" ? 5000 : 330); }
 
 using DenseDense = FlatRun<M::Experience, M::MaximumLikelihoodModel<M::Experience>>;
 using SparseDense = FlatRun<M::SparseExperience, M::MaximumLikelihoodModel<M::SparseExperience>>;
@@ -434,7 +434,7 @@ template <class Run>
 static void randomFlat(const char * variant, Rng & rng, const std::string & tier, long idx, bool junkClass, double junk) {
     FlatOpts o;
     o.S = (size_t)rng.range(1, 5); o.A = (size_t)rng.range(1, 3);
-    long maxOps = tier == "thorough" ? 1000 : 200;
+    long maxOps = tier == "thorough" ? 1500 : 200;
     o.nops = rng.coin(1, 4) ? rng.range(3, 20) : rng.range(20, maxOps);
     o.rewardMode = rng.coin(1, 6) ? 1 : (rng.coin(1, 12) ? 2 : 0);
     // the sparse model keeps a reward that moved by less than equalToleranceSmall (finding C07-sparse-reward-lag):
@@ -512,7 +512,7 @@ void verif::verif_case(Rng & rng, long idx, const std::string & tier) {
         default: break;
     }
     long k = idx - kFixed;
-    long nops = tier == "thorough" ? 800 : 150;
+    long nops = tier == "thorough" ? 1200 : 150;
     if (k % 23 == 22) {
         // sparse model over the getter-only experience.  Its element-wise sync(s,a) leaves cells without visits untouched
         // (finding C07-sparse-generic-sync); histories here sync every pair right after its first record and never reset,
